@@ -780,3 +780,27 @@ def delegation(f, target, n_args=None):
         if not (isinstance(a, ast.Name) and a.id == pname):
             return False, 'argument %s is passed where parameter %s belongs' % (_src(a), pname)
     return True, ''
+
+
+def split_parallel_assigns(f):
+    """Copy of a function in which `a, b = x, y` (same length, no target read by any of the values) is written as `a = x; b = y`."""
+    import copy
+
+    class T(ast.NodeTransformer):
+        def visit_Assign(self, n):
+            if len(n.targets) == 1 and isinstance(n.targets[0], (ast.Tuple, ast.List)) and isinstance(n.value, (ast.Tuple, ast.List)) \
+                    and len(n.targets[0].elts) == len(n.value.elts) and all(isinstance(t, ast.Name) for t in n.targets[0].elts):
+                names = {t.id for t in n.targets[0].elts}
+                if len(names) == len(n.value.elts) and not any(isinstance(x, ast.Name) and x.id in names for v in n.value.elts for x in ast.walk(v)):
+                    return [ast.copy_location(ast.Assign(targets=[t], value=v, type_comment=None), n) for t, v in zip(n.targets[0].elts, n.value.elts)]
+            return n
+    g = T().visit(copy.deepcopy(f))
+    ast.fix_missing_locations(g)
+    for a_ in ('cy_kind', '_class', '_module', 'cy_cdef'):
+        if hasattr(f, a_):
+            setattr(g, a_, getattr(f, a_))
+    for node in ast.walk(g):
+        for ch in ast.iter_child_nodes(node):
+            ch._parent = node
+    g._parent = getattr(f, '_parent', None)
+    return g
